@@ -11,19 +11,28 @@ package main
 // is refused too (frameDropped).  Which select case queues the frame is random, so every
 // scenario is repeated for several rounds.
 //
-// One round (real client with the tracking pool, raw spec-built peer):
+// One round (real client with the tracking pool, raw spec-built peer; the client dials through
+// foLatchConn, a net.Conn whose Write can be made to fail and whose Close blocks until the
+// round lets it go):
 //   1. the client calls; the peer answers with the first call res fragment of an F-fragment
 //      response; the application reads arg2 and the beginning of arg3 from it,
-//   2. the application Close()s the connection gracefully (state leaves Active, the outbound
-//      exchange stays registered),
-//   3. the peer sends a ping: ping on a non-active connection = protocol error =
-//      stopExchanges: the exchange's error is latched, the connection keeps reading,
-//   4. the peer sends a continuation frames, then a second ping whose error frame tells the
-//      peer that the client has processed everything before it,
+//   2. (rounds 0,1,4,5) the application Close()s the connection gracefully (state leaves
+//      Active, the outbound exchange stays registered; a draining connection answers pings),
+//   3. the latch: the harness makes the connection's writes fail and the peer sends a ping; the
+//      ping is answered (sendMessage queues the ping res), writeFrames' WriteOut fails =
+//      connectionError = stopExchanges: the exchange's error is latched, the connection goes to
+//      connectionClosed and writeFrames calls closeNetwork -- whose conn.Close() the harness
+//      holds back, so the reader goroutine stays alive exactly as in the window between
+//      stopExchanges and the completion of a real Close.  (Until the repair "a draining
+//      connection answers ping requests" the latch was: ping on a non-active connection =
+//      protocol error = stopExchanges; that ping is answered now.)
+//   4. once Close has been entered the peer sends a continuation frames; the schedule point
+//      conn.readFrames.handled tells the harness when the client has processed them (a closed
+//      connection answers nothing, so there is no marker on the wire),
 //   5. (optional) the application reads on into the next fragment (recvCh has room again),
-//      the peer sends b more continuation frames and a marker ping,
+//      the peer sends b more continuation frames,
 //   6. the application reads the response to the end (data, then the latched error, or a
-//      complete response when every fragment was queued).
+//      complete response when every fragment was queued); then Close is let go.
 //
 // Rounds alternate between the poisoning pool (a stale reference reads poison: caught by the
 // poisoned-header log oracle and the data oracle) and a non-poisoning pool (a stale reference
@@ -32,6 +41,7 @@ package main
 
 import (
 	"bytes"
+	"context"
 	"fmt"
 	"io"
 	"io/ioutil"
@@ -40,6 +50,7 @@ import (
 	"os"
 	"strings"
 	"sync"
+	"sync/atomic"
 	"time"
 
 	tchannel "github.com/uber/tchannel-go"
@@ -97,6 +108,32 @@ func (l *foLatchLog) WithFields(fields ...tchannel.LogField) tchannel.Logger {
 	return n
 }
 
+// ---------------------------------------------------------------- the client's network connection
+
+// foLatchConn is the client's net.Conn: once failWrites is set every Write fails (the
+// connection's writeFrames then runs connectionError and closeNetwork); Close signals that it
+// was called and blocks until release() -- reads keep working in between.
+type foLatchConn struct {
+	net.Conn
+	failWrites  int32
+	closeCalled chan struct{}
+	allowClose  chan struct{}
+	once, rel   sync.Once
+}
+
+func (c *foLatchConn) Write(b []byte) (int, error) {
+	if atomic.LoadInt32(&c.failWrites) != 0 {
+		return 0, fmt.Errorf("harness: injected write failure")
+	}
+	return c.Conn.Write(b)
+}
+func (c *foLatchConn) Close() error {
+	c.once.Do(func() { close(c.closeCalled) })
+	<-c.allowClose
+	return c.Conn.Close()
+}
+func (c *foLatchConn) release() { c.rel.Do(func() { close(c.allowClose) }) }
+
 // ---------------------------------------------------------------- one round
 
 type foLatchParams struct {
@@ -114,8 +151,9 @@ func (p foLatchParams) String() string {
 
 const foLatchWait = 4 * time.Second
 
-// foLatchRound runs one round on connection number c / exchange key kc of the label list.
-func foLatchRound(rng *rand.Rand, p foLatchParams, pool *foPool, c, kc int64, l *foLabels) (verdict, info string) {
+// foLatchRound runs one round on connection number c / exchange key kc of the label list;
+// graceful: the application Close()s the connection before the latch.
+func foLatchRound(rng *rand.Rand, p foLatchParams, pool *foPool, c, kc int64, graceful bool, l *foLabels) (verdict, info string) {
 	fail := func(f string, a ...interface{}) (string, string) { return "harness: " + fmt.Sprintf(f, a...), info }
 	ln, err := net.Listen("tcp", "127.0.0.1:0")
 	if err != nil {
@@ -123,12 +161,44 @@ func foLatchRound(rng *rand.Rand, p foLatchParams, pool *foPool, c, kc int64, l 
 	}
 	defer ln.Close()
 	sink := &foLatchSink{}
+	var wc *foLatchConn
 	cli, err := tchannel.NewChannel("cli", &tchannel.ChannelOptions{Logger: &foLatchLog{sink: sink},
+		Dialer: func(ctx context.Context, network, hostPort string) (net.Conn, error) {
+			nc, err := (&net.Dialer{}).DialContext(ctx, network, hostPort)
+			if err != nil {
+				return nil, err
+			}
+			wc = &foLatchConn{Conn: nc, closeCalled: make(chan struct{}), allowClose: make(chan struct{})}
+			return wc, nil
+		},
 		DefaultConnectionOptions: tchannel.ConnectionOptions{FramePool: pool}})
 	if err != nil {
 		return fail("%v", err)
 	}
 	defer cli.Close()
+	defer func() {
+		if wc != nil {
+			wc.release()
+		}
+	}()
+	// frames the client's readFrames has dealt with completely (incl. the release, if any)
+	var handled int64
+	tchannel.VerifSetHook(func(name string, id uint32) {
+		if name == "conn.readFrames.handled" {
+			atomic.AddInt64(&handled, 1)
+		}
+	})
+	defer tchannel.VerifSetHook(nil)
+	waitHandled := func(n int64, what string) string {
+		deadline := time.Now().Add(foLatchWait)
+		for atomic.LoadInt64(&handled) < n {
+			if time.Now().After(deadline) {
+				return fmt.Sprintf("timeout waiting for %s (%d of %d frames handled by the client's reader)", what, atomic.LoadInt64(&handled), n)
+			}
+			time.Sleep(200 * time.Microsecond)
+		}
+		return ""
+	}
 
 	// the response
 	resArg2 := foArg(rng, p.arg2)
@@ -137,8 +207,8 @@ func foLatchRound(rng *rand.Rand, p foLatchParams, pool *foPool, c, kc int64, l 
 	var cum []int       // cum[j] = arg3 bytes contained in fragments 0..j
 	built := make(chan struct{})
 
-	latch, phaseB := make(chan struct{}), make(chan struct{})
-	delivered1, delivered2 := make(chan struct{}), make(chan struct{})
+	latch, latched, phaseB := make(chan struct{}), make(chan struct{}), make(chan struct{})
+	sent1, sent2 := make(chan struct{}), make(chan struct{})
 	quit := make(chan struct{}) // the application gave up on this round
 	peerErr := make(chan error, 1)
 	a, b := p.a, p.b
@@ -200,49 +270,37 @@ func foLatchRound(rng *rand.Rand, p foLatchParams, pool *foPool, c, kc int64, l 
 				_, err := conn.Write(bs)
 				return err
 			}
-			marker := func(id uint32) error {
-				if err := wr(rawFrameBytes(0xd0, id, nil)); err != nil {
-					return err
-				}
-				for {
-					f, err := readRawFrame(conn, foLatchWait)
-					if err != nil {
-						return fmt.Errorf("waiting for the answer to marker ping %d: %v", id, err)
-					}
-					if f.Type == 0xff && f.ID == id {
-						return nil
-					}
-					if f.Type == 0xd1 && f.ID == id {
-						return fmt.Errorf("ping %d was answered: the connection is still active", id)
-					}
-				}
-			}
 			if err := wr(frames[0]); err != nil {
 				return err
 			}
 			select {
 			case <-latch:
 			case <-time.After(foLatchWait):
-				return fmt.Errorf("application never closed the connection")
+				return fmt.Errorf("application never armed the latch")
 			}
+			// the ping whose answer the client fails to write
 			if err := wr(rawFrameBytes(0xd0, 9001, nil)); err != nil {
 				return err
+			}
+			select {
+			case <-latched:
+			case <-quit:
+				return nil
+			case <-time.After(2 * foLatchWait):
+				return fmt.Errorf("the client's exchanges were never stopped")
 			}
 			for j := 1; j <= a; j++ {
 				if err := wr(frames[j]); err != nil {
 					return err
 				}
 			}
-			if err := marker(9002); err != nil {
-				return err
-			}
-			close(delivered1)
+			close(sent1)
 			if b >= 0 {
 				select {
 				case <-phaseB:
 				case <-quit:
 					return nil
-				case <-time.After(foLatchWait):
+				case <-time.After(2 * foLatchWait):
 					return fmt.Errorf("application never reached the second phase")
 				}
 				for j := a + 1; j <= a+b; j++ {
@@ -250,10 +308,7 @@ func foLatchRound(rng *rand.Rand, p foLatchParams, pool *foPool, c, kc int64, l 
 						return err
 					}
 				}
-				if err := marker(9003); err != nil {
-					return err
-				}
-				close(delivered2)
+				close(sent2)
 			}
 			conn.SetReadDeadline(time.Now().Add(foLatchWait))
 			io.Copy(ioutil.Discard, conn)
@@ -321,23 +376,39 @@ func foLatchRound(rng *rand.Rand, p foLatchParams, pool *foPool, c, kc int64, l 
 	l.fetch(kc, true, true)
 	l.acc(kc)
 
-	// graceful close, then the peer latches the error and keeps streaming
-	conn.Close()
+	// (graceful close, then) the latch: the answer to the peer's ping cannot be written, the
+	// connection fails and stops its exchanges; its Close of the network is held back, the peer
+	// keeps streaming
+	if wc == nil {
+		return fail("the client did not dial through the harness")
+	}
+	if graceful {
+		conn.Close()
+	}
+	atomic.StoreInt32(&wc.failWrites, 1)
 	close(latch)
-	if v := waitFor(delivered1, "the frames after the latch were processed"); v != "" {
+	select {
+	case <-wc.closeCalled: // connectionError has run: exchanges stopped, state closed, closeNetwork entered
+	case err := <-peerErr:
+		peerErr <- err
+		return fail("raw peer stopped before the latch: %v", err)
+	case <-time.After(foLatchWait + time.Second):
+		return fail("the connection was not closed after its writer failed (%d frames handled)", atomic.LoadInt64(&handled))
+	}
+	close(latched)
+	if v := waitFor(sent1, "the frames after the latch were sent"); v != "" {
 		return fail("%s", v)
 	}
-	pingLabels := func() {
-		l.connSysErr(c)
-		l.readRel(c, false)
-		l.write(c)
+	if v := waitHandled(int64(2+a), "the frames after the latch were processed"); v != "" {
+		return fail("%s", v)
 	}
-	pingLabels()
+	l.readRel(c, false) // the ping req
+	l.sendMsg(c)        // its answer, queued
+	l.writeFail(c)      // writeFrames: WriteOut fails, the frame is released, the loop is left
 	l.errN(kc)
 	for j := 1; j <= a; j++ {
 		l.readFwd(c, kc, 0)
 	}
-	pingLabels()
 
 	popped := 0 // continuation fragments the application has started to read
 	var readErr error
@@ -354,7 +425,10 @@ func foLatchRound(rng *rand.Rand, p foLatchParams, pool *foPool, c, kc int64, l 
 			close(quit)
 		} else {
 			close(phaseB)
-			if v := waitFor(delivered2, "the frames of the second phase were processed"); v != "" {
+			if v := waitFor(sent2, "the frames of the second phase were sent"); v != "" {
+				return fail("%s", v)
+			}
+			if v := waitHandled(int64(2+a+b), "the frames of the second phase were processed"); v != "" {
 				return fail("%s", v)
 			}
 			popped = 1
@@ -363,7 +437,6 @@ func foLatchRound(rng *rand.Rand, p foLatchParams, pool *foPool, c, kc int64, l 
 			for j := a + 1; j <= a+b; j++ {
 				l.readFwd(c, kc, 0)
 			}
-			pingLabels()
 		}
 	}
 	complete := false
@@ -389,7 +462,7 @@ func foLatchRound(rng *rand.Rand, p foLatchParams, pool *foPool, c, kc int64, l 
 			consumed = j
 		}
 	}
-	info = fmt.Sprintf("F=%d a=%d b=%d got=%d/%d consumed=%d complete=%v err=%v", F, a, b, len(got), len(resArg3), consumed, complete, readErr)
+	info = fmt.Sprintf("graceful=%v F=%d a=%d b=%d got=%d/%d consumed=%d complete=%v err=%v", graceful, F, a, b, len(got), len(resArg3), consumed, complete, readErr)
 	switch {
 	case hasPoison(got):
 		verdict = "application read poison (contents of a released frame) from the response"
@@ -422,6 +495,7 @@ func foLatchRound(rng *rand.Rand, p foLatchParams, pool *foPool, c, kc int64, l 
 	} else {
 		l.fetch(kc, true, true) // nothing queued, error latched: the reader fails
 	}
+	wc.release() // closeNetwork completes, the client's reader goroutine ends
 	cli.Close()
 	select {
 	case err := <-peerErr:
@@ -479,7 +553,7 @@ func foLatchFamily(top *rand.Rand, n int, o *Out, only string, tooMany func() bo
 			pool.mu.Lock()
 			pool.noPoison = r%2 == 1
 			pool.mu.Unlock()
-			v, info := foLatchRound(rng, p, pool, int64(r+1), int64(100+r), &l)
+			v, info := foLatchRound(rng, p, pool, int64(r+1), int64(100+r), r%4 < 2, &l)
 			infos = append(infos, info)
 			verdict = v
 			if pool.multiReleased() > 0 {
